@@ -269,6 +269,18 @@ func nilReadType(rep *Report, s *glue.Subject) {
 		}
 		c.readsAsEmpty("(*T)(nil)", m, dynZero, false, 0)
 		c.writesPanic("(*T)(nil)", m)
+		// the plain Go getters of the nil pointer are reads as well
+		rv := reflect.ValueOf(nilPtr)
+		for mi := 0; mi < rv.NumMethod(); mi++ {
+			mt := rv.Type().Method(mi)
+			if len(mt.Name) > 3 && mt.Name[:3] == "Get" && mt.Type.NumIn() == 1 && mt.Type.NumOut() == 1 {
+				pan, pmsg := safely(func() { rv.Method(mi).Call(nil) })
+				c.rep.Count("C09", "go-getters-on-nil", 1)
+				if pan {
+					c.bad("getter-panic", "(*T)(nil)."+mt.Name+"()", pmsg)
+				}
+			}
+		}
 		// (b) Type().Zero()
 		pan, pmsg = safely(func() { m = s.Zero.ProtoReflect().Type().Zero() })
 		if pan {
